@@ -20,6 +20,7 @@ import BpProofs.Props.C06
   insertion-ordered association list, the annotation of a field is `PyMeta.typeHint f`; an instance while it is
   being constructed is a `PyMeta.Inst`.  All of that is fixed in BpProofs/PyPreludeMeta.lean (trusted).
 -/
+set_option linter.unusedSimpArgs false
 namespace Bp.C06
 open Bp Bp.PyEnum Bp.PyMeta Bp.SrcTieMeta
 open Bp.Py (Res ofR)
